@@ -58,7 +58,8 @@ type fwDied struct{}
 
 var (
 	fwFS     map[string]*fwFile
-	fwOpen   map[*os.File]string // handle -> path
+	fwOpen   map[*os.File]string // open handle -> path
+	fwNames  map[*os.File]string // every handle ever returned -> the name it was opened with
 	fwOps    int
 	fwFaults int
 	fwTemps  int
@@ -90,6 +91,7 @@ func fwFail(what string) bool {
 func fwHandle(path string) *os.File {
 	f := &os.File{}
 	fwOpen[f] = path
+	fwNames[f] = path
 	return f
 }
 
@@ -198,7 +200,7 @@ func fwFileChmod(f *os.File, m os.FileMode) error {
 
 func fwChmodPath(name string, m os.FileMode) error { return fwFileChmod(nil, m) }
 
-func fwFileName(f *os.File) string { return fwOpen[f] }
+func fwFileName(f *os.File) string { return fwNames[f] }
 
 func fwFileTruncate(f *os.File, size int64) error {
 	path := fwOpen[f]
@@ -309,6 +311,7 @@ func VerifFmtWrite() {
 	const path = "dir/main.vcl"
 	fwFS = map[string]*fwFile{path: {data: []byte(orig), exists: true}}
 	fwOpen = map[*os.File]string{}
+	fwNames = map[*os.File]string{}
 	fwOps, fwFaults, fwTemps = 0, 0, 0
 	fwFormatted = "sub vcl_recv {\n  set req.http.a = \"b\";\n}\n"
 	fwOutcome = nondet.Choice("formatter", 3)
@@ -328,6 +331,9 @@ func VerifFmtWrite() {
 		}()
 		err = runFormat(r, &fwResolver{path, orig})
 	}()
+	if err != nil {
+		nondet.Debug("runFormat failed")
+	}
 	f := fwFS[path]
 	nondet.Assert(f != nil && f.exists, "the file does not exist after fmt -w")
 	if f == nil {
